@@ -192,7 +192,26 @@ def filesystem_events(rng, q):
             for name in sorted(os.listdir(d)):
                 stem, dot, ext = name.rpartition(".")
                 listing.append({"stem": stem if dot else name, "ext": ext if dot else "", "isdir": os.path.isdir(os.path.join(d, name))})
-            evs.append([observe(reg, "filesystem", {"expected": expected, "dir": listing, "exts": list(exts_arg or ("gb", "gbk"))}, absent=ABSENT + ["nested", "subdir", "README", "inner"])])
+            first = observe(reg, "filesystem", {"expected": expected, "dir": listing, "exts": list(exts_arg or ("gb", "gbk"))}, absent=ABSENT + ["nested", "subdir", "README", "inner"])
+            # the directory is live: the SAME registry object is looked at again after a file was added and one was removed
+            trace = [first]
+            try:
+                victim = sorted(n for n in os.listdir(d) if os.path.isfile(os.path.join(d, n)) and n.rpartition(".")[2] in (exts_arg or ("gb", "gbk")))
+                if victim:
+                    os.remove(os.path.join(d, victim[0]))
+                rec2 = yreg[chosen[-1][1]].entity.record
+                with open(os.path.join(d, "added-later.%s" % (list(exts_arg or ("gb", "gbk"))[0])), "w") as f:
+                    SeqIO.write(rec2, f, "genbank")
+                listing2 = []
+                for name in sorted(os.listdir(d)):
+                    stem, dot, ext = name.rpartition(".")
+                    listing2.append({"stem": stem if dot else name, "ext": ext if dot else "", "isdir": os.path.isdir(os.path.join(d, name))})
+                removed = victim[0].rpartition(".")[0] if victim else "nope"
+                trace.append(observe(reg, "filesystem", {"expected": [], "dir": listing2, "exts": list(exts_arg or ("gb", "gbk"))},
+                                     absent=ABSENT + [removed, "nested"]))
+            except OSError:
+                pass
+            evs.append(trace)
         finally:
             shutil.rmtree(d, ignore_errors=True)
     return evs
